@@ -12,7 +12,7 @@
 //	prop <file|nofile> <suffix>            confutil.PropertyTagResolver(path + suffix)
 //	rands <n>                              str.RandStringRunes(n, "") and templater.RandString(n)
 //	mpread <len> <limit> <bufsize> <k>     ioutil2.MultiPassReader: k Reads
-//	grpcjson <file>                        grpc/json provider on arbitrary bytes
+//	grpcjson <continue_on_error> <file>    grpc/json provider on arbitrary bytes
 //	cfg <yaml>                             scenario config.DecodeMap (third-party YAML + mapstructure): fuzzed only
 //
 // Every call runs under recover and a bounded wait; outcome classes panic / hang / oom.
@@ -294,10 +294,10 @@ func mpreadCase(length, limit, m, k int) string {
 	})
 }
 
-func grpcjsonCase(file []byte) string {
+func grpcjsonCase(file []byte, cont bool) string {
 	fs := afero.NewMemMapFs()
 	_ = afero.WriteFile(fs, "ammo", file, 0o644)
-	p := grpcjson.NewProvider(fs, grpcjson.Config{File: "ammo"})
+	p := grpcjson.NewProvider(fs, grpcjson.Config{File: "ammo", ContinueOnError: cont})
 	ctx, cancel := context.WithCancel(context.Background())
 	defer cancel()
 	runRes := make(chan string, 1)
@@ -329,6 +329,8 @@ func grpcjsonCase(file []byte) string {
 		case a := <-ch:
 			if a == nil {
 				status = "closed"
+			} else if a.IsInvalid() {
+				out = append(out, "GI")
 			} else {
 				out = append(out, fmt.Sprintf("G:%s:%s", vh.HexS(a.Tag), vh.HexS(a.Call)))
 			}
@@ -436,7 +438,7 @@ func runCase(c string) string {
 		v := ints(f[1:])
 		return mpreadCase(int(v[0]), int(v[1]), int(v[2]), int(v[3]))
 	case "grpcjson":
-		return grpcjsonCase(vh.UnHex(f[1]))
+		return grpcjsonCase(vh.UnHex(f[2]), f[1] == "1")
 	case "cfg":
 		return cfgCase(vh.UnHex(f[1]))
 	}
